@@ -250,6 +250,14 @@ func c09WorkerMain() {
 		formula := unhx(w[2])
 		c09JobIdx.Store(idx)
 		t0 := time.Now()
+		if strings.HasPrefix(formula, "opn ") {
+			c09JobCPU.Store(c09CPUNanos())
+			c09JobStart.Store(t0.UnixNano())
+			out := c09OpnEval(strings.Fields(formula))
+			c09JobStart.Store(0)
+			fmt.Fprintf(out0, "R %d %s 1 1 %d\n", idx, hx(out), time.Since(t0).Microseconds())
+			continue
+		}
 		if strings.HasPrefix(formula, "cyc ") {
 			out := "bad-op"
 			if M, e, cells, ok := c09ParseCyc(strings.Fields(formula)); ok {
